@@ -225,6 +225,17 @@ def thunks():
     reg("landscaper_fit_transform", landscaper, ["A", "B", "C"], forms=lf)
     reg("landscaper_flatten", lambda P: PersistenceLandscaper(hom_deg=1, num_steps=5, flatten=True).fit_transform([P["A"], P["C"]]), ["A", "C"], forms=lf)
 
+    # ---- kernels and weights called directly --------------------------------------------------
+    from persim import images_kernels as ik, images_weights as iw
+
+    kf = ("f64",)
+    reg("kernel_gaussian_corr", lambda P: ik.gaussian(P["X"], P["Y"], mu=P["mu"], sigma=P["sigma"]), ["X", "Y", "mu", "sigma"], forms=kf)
+    reg("kernel_gaussian_default", lambda P: ik.gaussian(P["X"], P["Y"]), ["X", "Y"], forms=kf)
+    reg("kernel_uniform", lambda P: ik.uniform(P["X"], P["Y"], mu=P["mu"], width=2.0, height=1.0), ["X", "Y", "mu"], forms=kf)
+    reg("kernel_bvn_high_corr", lambda P: ik.bvn_cdf(P["X"], P["Y"], mu_x=0.5, mu_y=1.0, sigma_xx=1.0, sigma_yy=2.0, sigma_xy=-1.35), ["X", "Y"], forms=kf)
+    reg("weight_linear_ramp", lambda P: iw.linear_ramp(P["X"], P["Y"], low=0.0, high=2.0, start=0.5, end=1.5), ["X", "Y"], forms=kf)
+    reg("weight_persistence", lambda P: iw.persistence(P["X"], P["Y"], n=2.0), ["X", "Y"], forms=kf)
+
     # ---- plots -------------------------------------------------------------------------------
     def pd_(P, **kw):
         ax = _fresh_ax()
@@ -298,6 +309,8 @@ def make_pool(f):
         "plot_only": [1], "xy_range": [-1.0, 7.0, -1.0, 7.0],
         "M": np.array([[0.0, 0.0, 1.0], [1.0, 1.0, 2.0], [2.0, -1.0, 0.5]]),
         "IMG": np.arange(36, dtype=float).reshape(6, 6) / 36.0,
+        "X": np.array([-1.0, 0.0, 0.5, 1.0, 2.5]), "Y": np.array([0.25, 1.0, 0.5, 2.0, 1.5]),
+        "mu": np.array([0.5, 1.0]), "sigma": np.array([[1.0, 0.6], [0.6, 2.0]]),
     }
     return P
 
